@@ -617,6 +617,13 @@ func (r *DRun) afterBlock(i int, op *DOp, seqs []lz.Seq, bad int, lits []byte, s
 	}
 	if bad >= 0 {
 		st.Inc("hostile_blocks")
+		var sum int64
+		for _, q := range seqs {
+			sum += int64(q.LitLen)
+		}
+		if sum >= 1<<32 && int64(uint32(sum)) <= int64(len(lits)) {
+			st.Inc("hostile_blocks_with_wrapping_sums")
+		}
 		if err == nil {
 			r.failf(i, "malformed-accepted", "WriteBlock-accepted", "block with malformed sequence %d %+v (stream length %d, WindowSize %d, %d literals) accepted without error", bad, seqs[bad], len(m.Out), r.W, len(lits))
 			return
